@@ -3,6 +3,7 @@ import BSEModel.Compose
 import BSEModel.Api
 import BSEModel.Index
 import BSEModel.Refs
+import BSEModel.AddBasis
 open Lean BSE BSE.Drv BSE.Compose
 
 namespace BSE.Drv.Store
@@ -27,6 +28,15 @@ def optStr (j : Json) (k : String) : Option String :=
   | _ => none
 
 def handlers : List (String × Handler) := [
+  ("add_from_components", fun j => do
+    let files ← decodeFiles j
+    let rq ← j.getObjVal? "req"
+    let r : BSE.AddBasis.Req := {
+      comps := ← getStrList rq "comps", subdir := ← getStr rq "subdir", fileBase := ← getStr rq "file_base", name := ← getStr rq "name",
+      family := ← getStr rq "family", role := ← getStr rq "role", description := ← getStr rq "description", version := ← getStr rq "version",
+      revdesc := ← getStr rq "revision_description", today := ← getStr rq "today" }
+    let (fs, err) := BSE.AddBasis.addFromComponents files r
+    pure (obj [("files", ofJ (.obj fs)), ("raise", match err with | some e => Json.str e.name | none => Json.null)])),
   ("compact_groups", fun j => do
     let els ← (← getArr j "els").mapM fun p => do
       match p with
